@@ -7,6 +7,7 @@ import (
 	"errors"
 	"net"
 	"net/http"
+	"sync"
 	"time"
 	"unsafe"
 
@@ -45,7 +46,12 @@ var vpNextTransports []*vpTransport
 var vpMadeTransports []*vpTransport
 var vpHijackFails bool
 
+// vpMu guards the harness's own bookkeeping (the native build runs handlers concurrently).
+var vpMu sync.Mutex
+
 func vpTakeTransport() *vpTransport {
+	vpMu.Lock()
+	defer vpMu.Unlock()
 	var t *vpTransport
 	if len(vpNextTransports) > 0 {
 		t = vpNextTransports[0]
@@ -55,6 +61,13 @@ func vpTakeTransport() *vpTransport {
 	}
 	vpMadeTransports = append(vpMadeTransports, t)
 	return t
+}
+
+// vpNextTransportFor queues tr for the calling logical thread's next NewWS/NewLegacy.
+func vpNextTransportFor(tr *vpTransport) {
+	vpMu.Lock()
+	vpNextTransports = append(vpNextTransports, tr)
+	vpMu.Unlock()
 }
 
 func vpNewWS(c *websocket.Conn) (*vpTransport, error) { return vpTakeTransport(), nil }
@@ -105,6 +118,8 @@ var vpCacheMayExpire bool
 var vpCacheGets int
 
 func vpCacheGet(c interface{}, k string) (interface{}, bool) {
+	vpMu.Lock()
+	defer vpMu.Unlock()
 	vpCacheGets++
 	v, ok := vpCache[k]
 	if !ok {
@@ -116,12 +131,18 @@ func vpCacheGet(c interface{}, k string) (interface{}, bool) {
 	return v, true
 }
 func vpCacheSet(c interface{}, k string, v interface{}, d time.Duration) {
+	vpMu.Lock()
+	defer vpMu.Unlock()
 	if vpCache == nil {
 		vpCache = map[string]interface{}{}
 	}
 	vpCache[k] = v
 }
-func vpCacheCount(c interface{}) int { return len(vpCache) }
+func vpCacheCount(c interface{}) int {
+	vpMu.Lock()
+	defer vpMu.Unlock()
+	return len(vpCache)
+}
 
 func itoa(i int) string {
 	if i == 0 {
@@ -136,15 +157,26 @@ func itoa(i int) string {
 }
 
 // vpGauge implements prometheus.Gauge as a ghost counter.
-type vpGauge struct{ v int }
+type vpGauge struct {
+	v  int
+	mu sync.Mutex
+}
 
 func (g *vpGauge) Desc() *prometheus.Desc                 { return nil }
 func (g *vpGauge) Write(*dto.Metric) error                { return nil }
 func (g *vpGauge) Describe(chan<- *prometheus.Desc)       {}
 func (g *vpGauge) Collect(chan<- prometheus.Metric)       {}
 func (g *vpGauge) Set(float64)                            {}
-func (g *vpGauge) Inc()                                   { g.v++ }
-func (g *vpGauge) Dec()                                   { g.v-- }
+func (g *vpGauge) Inc() {
+	g.mu.Lock()
+	g.v++
+	g.mu.Unlock()
+}
+func (g *vpGauge) Dec() {
+	g.mu.Lock()
+	g.v--
+	g.mu.Unlock()
+}
 func (g *vpGauge) Add(float64)                            {}
 func (g *vpGauge) Sub(float64)                            {}
 func (g *vpGauge) SetToCurrentTime()                      {}
